@@ -16,7 +16,9 @@
 //        "… reproduces a JSON-equal document (optional properties given as an explicit null may be omitted)"
 //   python-vs-go-differs
 //        "The JSON Python produces for a document equals the JSON Go produces for the same document"
-//        judged only when Go itself satisfies C01 on that document (otherwise blocked_by=C01).
+//        compared whenever both languages produce JSON; the kind says who deviates from the document:
+//        [go deviates] (Python reproduces it, Go does not), [both]; Python alone deviating is the
+//        round-trip clause's finding (reported there once, with Go's text).
 //   python-from_json-undecoded
 //        "… so data written by one generated SDK is readable by the other": reading means from_json
 //        builds the generated classes; a position whose schema type is a struct (inline, referenced,
@@ -38,7 +40,6 @@ import (
 
 	"github.com/grafana/cog/verifx/genrun"
 	"github.com/grafana/cog/verifx/gschema"
-	"github.com/grafana/cog/verifx/irgen"
 	"github.com/grafana/cog/verifx/vx"
 )
 
@@ -48,26 +49,18 @@ func main() {
 	r := vx.Start("C11")
 	genrun.MaybeServe()
 	r.PerKindSmallest = true
-	schemas := gschema.Enumerate(r.Thorough())
-	if !r.Thorough() {
-		// four members of the thorough set the quick tier needs for nested containers of objects
-		// (their reductions array(ref S), map(ref S) are quick members, so the set stays downward closed)
-		S := irgen.Ref(gschema.Pkg + ".S")
-		for _, t := range []gschema.Term{irgen.Array(irgen.Map(S)), irgen.Map(irgen.Array(S)), irgen.Array(irgen.Array(S)), irgen.Map(irgen.Map(S))} {
-			schemas = append(schemas, gschema.Field1(t, true))
-		}
-	}
+	schemas := c11Schemas(r.Thorough())
 	if r.Replay != "" {
 		_, witness, _ := r.ReplayFile()
 		want := witness[strings.Index(witness, " :: ")+4:]
 		var pick []gschema.Schema
-		for _, s := range gschema.Enumerate(true) {
+		for _, s := range append(c11Schemas(true), c11Schemas(false)...) {
 			if s.String() == want {
 				pick = append(pick, s)
 			}
 		}
 		if len(pick) == 0 {
-			vx.Fatalf("replay: schema %q is not in grammar G", want)
+			vx.Fatalf("replay: schema %q is not in C11's schema set", want)
 		}
 		schemas = pick[:1]
 		fmt.Println("replaying", witness)
@@ -217,44 +210,48 @@ func main() {
 				}
 			}
 			// ---- Go, same document, same run ----
+			// "The JSON Python produces for a document equals the JSON Go produces for
+			// the same document" stands on its own: the two encodings are compared
+			// whenever both exist, and a difference is classified by who deviates from
+			// the document ([go deviates] / [both]; "python deviates" alone is the
+			// round-trip clause's finding and is reported there, with Go's text).
 			goText := "(not available: the Go package does not compile)"
 			if !goOK {
 				bump("py-vs-go blocked_by=C02 (docs)")
 			} else {
 				executions++
 				gresp, gdied := prep.Driver.Do(map[string]any{"op": "roundtrip", "type": c.RootType(), "doc": doc})
-				goCanon, goGood := "", false
+				goCanon, haveGo := "", false
 				if !gdied && gresp["error"] == nil && gresp["decode_panic"] == nil && gresp["decode_err"] == nil {
 					if re, ok := gresp["reencoded"].(string); ok {
 						if g, err := canonLenient(c.Schema, re); err == nil {
-							goCanon = g
-							goGood = g == want && own(re)
+							goCanon, haveGo, goText = g, true, re
 						}
 					}
 				}
 				switch {
-				case !goGood:
-					goText = "(not compared: Go itself fails C01 on this document)"
-					bump("py-vs-go blocked_by=C01 (docs)")
-					if havePy && goCanon != "" && goCanon == pyCanon && pyCanon != want {
-						bump("python-and-go-deviate-identically (docs)")
-					}
+				case !haveGo:
+					goText = "(nothing: Go does not decode/encode this document, C01's finding)"
+					bump("py-vs-go not-compared: Go produced nothing, blocked_by=C01 (docs)")
 				case !havePy:
 					bump("py-vs-go not-compared: python produced nothing (docs)")
 				default:
 					bump("py-vs-go compared (docs)")
-					goText = fmt.Sprint(gresp["reencoded"])
+					goDev, pyDev := goCanon != want, pyCanon != want
 					switch {
 					case pyCanon == goCanon:
-					case pyDiffers:
-						// Go reproduces the document and Python does not: one
-						// deviation, reported once under the round-trip clause
-						// (with Go's text in the description).
+						if goDev {
+							bump("python-and-go-deviate-identically (docs)")
+						}
+					case pyDev && !goDev:
 						bump("python-vs-go-differs implied by python-roundtrip-differs (docs)")
 						outcome += "+vs-go-differs"
+					case goDev && !pyDev:
+						fail(c, "python-vs-go-differs", "="+diffClass(c.Schema, doc, goText)+" [go deviates]", doc, fmt.Sprintf("for the same document Python writes %s (JSON-equal to the document) and Go writes %s", pyJSON, goText))
+						outcome += "+vs-go-differs(go)"
 					default:
-						fail(c, "python-vs-go-differs", "="+diffClass(c.Schema, goText, pyJSON), doc, fmt.Sprintf("for the same document Go writes %s and Python writes %s", goText, pyJSON))
-						outcome += "+vs-go-differs"
+						fail(c, "python-vs-go-differs", "="+diffClass(c.Schema, goText, pyJSON)+" [both]", doc, fmt.Sprintf("for the same document Go writes %s and Python writes %s; neither is JSON-equal to the document", goText, pyJSON))
+						outcome += "+vs-go-differs(both)"
 					}
 				}
 			}
@@ -312,7 +309,7 @@ func main() {
 	}, []string{
 		"numbers compared as exact rationals, key order free, optional properties given as explicit null may be absent (input vs Python and Go vs Python alike)",
 		"documents on which the reference validators disagree are excluded; generation failures are C01/C04's; Python modules that do not import are blocked_by=C02; Go packages that do not compile block only the Go comparison",
-		"Python vs Go is compared only where Go itself satisfies C01 on the document (otherwise blocked_by=C01)",
+		"Python vs Go is compared whenever both produce JSON for the document; a difference caused by Python alone is reported once, under the round-trip clause",
 		"Python is driven exactly as a user would: Root.from_json(json.loads(text)); json.dumps(obj, cls=<unit>.cog.encoder.JSONEncoder)",
 	})
 }
